@@ -583,7 +583,11 @@ class Array(Generic[T], Collection):
             raise ValueError("At least one value is required")
 
         first_arg = args[0]
-        if not all(isinstance(arg, type(first_arg)) for arg in args):
+        first_type = first_arg.to_mir()
+        if not all(
+            isinstance(arg, type(first_arg)) and arg.to_mir() == first_type
+            for arg in args
+        ):
             raise TypeError("All arguments must be of the same type")
 
         return Array(
